@@ -3541,7 +3541,31 @@ func (p *Posix) DeleteObjects(ctx context.Context, input *s3.DeleteObjectsInput)
 	}, nil
 }
 
-func (p *Posix) GetObject(_ context.Context, input *s3.GetObjectInput) (*s3.GetObjectOutput, error) {
+// sameObjectFile reports whether two stats describe the same stored object.
+// The inode number alone does not tell: the number of a replaced object's
+// inode is handed out again at once, possibly to the object that replaces the
+// one replacing it.
+func sameObjectFile(a, b os.FileInfo) bool {
+	return os.SameFile(a, b) && a.Size() == b.Size() && a.ModTime().Equal(b.ModTime())
+}
+
+// GetObject reads the size and the attributes of the object through its
+// path before it opens the file. When the object is replaced in between, the
+// reply would pair one object's body with another's length, ETag and
+// metadata: the read starts over in that case.
+func (p *Posix) GetObject(ctx context.Context, input *s3.GetObjectInput) (*s3.GetObjectOutput, error) {
+	for attempt := 0; attempt < 5; attempt++ {
+		replaced := false
+		out, err := p.getObject(ctx, input, &replaced)
+		if !replaced {
+			return out, err
+		}
+	}
+	// the object is being replaced over and over: serve what is there
+	return p.getObject(ctx, input, nil)
+}
+
+func (p *Posix) getObject(_ context.Context, input *s3.GetObjectInput, replaced *bool) (*s3.GetObjectOutput, error) {
 	if input.Bucket == nil {
 		return nil, s3err.GetAPIError(s3err.ErrInvalidBucketName)
 	}
@@ -3730,6 +3754,13 @@ func (p *Posix) GetObject(_ context.Context, input *s3.GetObjectInput) (*s3.GetO
 		return nil, fmt.Errorf("open object: %w", err)
 	}
 	verifhook.At("get.opened", "path", objPath)
+	if replaced != nil {
+		if ofi, err := f.Stat(); err == nil && !sameObjectFile(fi, ofi) {
+			f.Close()
+			*replaced = true
+			return nil, nil
+		}
+	}
 
 	var checksums s3response.Checksum
 	var cType types.ChecksumType
@@ -3777,7 +3808,20 @@ func (p *Posix) GetObject(_ context.Context, input *s3.GetObjectInput) (*s3.GetO
 	}, nil
 }
 
+// HeadObject: as GetObject, the reply is started over when the object was
+// replaced while its size and attributes were read.
 func (p *Posix) HeadObject(ctx context.Context, input *s3.HeadObjectInput) (*s3.HeadObjectOutput, error) {
+	for attempt := 0; attempt < 5; attempt++ {
+		replaced := false
+		out, err := p.headObject(ctx, input, &replaced)
+		if !replaced {
+			return out, err
+		}
+	}
+	return p.headObject(ctx, input, nil)
+}
+
+func (p *Posix) headObject(ctx context.Context, input *s3.HeadObjectInput, replaced *bool) (*s3.HeadObjectOutput, error) {
 	if input.Bucket == nil {
 		return nil, s3err.GetAPIError(s3err.ErrInvalidBucketName)
 	}
@@ -3961,6 +4005,12 @@ func (p *Posix) HeadObject(ctx context.Context, input *s3.HeadObjectInput) (*s3.
 	}
 
 	verifhook.At("head.attrs", "path", objPath)
+	if replaced != nil && !fi.IsDir() {
+		if nfi, err := os.Stat(objPath); err == nil && !sameObjectFile(fi, nfi) {
+			*replaced = true
+			return nil, nil
+		}
+	}
 	return &s3.HeadObjectOutput{
 		ContentLength:             &size,
 		ContentType:               objMeta.ContentType,
